@@ -317,7 +317,7 @@ def oblige(eng, st: State, goal, name: str, kind="property", tags=None, detail="
         status, model, backend, ms, det = "discharged", None, "z3", 0.0, "trivial"
     else:
         status, model, backend, ms, det = smt.prove(list(st.pc) + extra, goal, timeout_ms=CTX.timeout_ms, both=CTX.both)
-    if status == "refuted" and eng.spec_funcs and not getattr(CTX, "no_auto_unfold", False):
+    if status == "refuted" and eng.spec_funcs and not getattr(CTX, "no_auto_unfold", False) and not os.environ.get("PYVC_NO_AUTO_UNFOLD"):
         # A counter-model may only exploit that a recursive spec function is uninterpreted where no hint unfolded it.  Before such a
         # refutation is believed, the definitions of the spec applications that occur in the query are instantiated automatically
         # (a few rounds); adding true definitional instances is sound, so `unsat` now is a proof and `sat` again a better candidate.
